@@ -12,8 +12,8 @@ import (
 
 // ---- engine-side overrides of parts that are not about authorisation ----
 
-func verifRequestID(inner http.Handler) http.Handler         { return inner } // uuid
-func verifMapAdd(m *expvar.Map, key string, delta int64)      {}              // stdlib expvar counters
+func verifRequestID(inner http.Handler) http.Handler     { return inner } // uuid
+func verifMapAdd(m *expvar.Map, key string, delta int64) {}               // stdlib expvar counters
 func verifHttpError(w http.ResponseWriter, err string, pretty bool, code int) {
 	w.WriteHeader(code) // the JSON body (encoding/json) is not part of the property
 }
@@ -44,11 +44,13 @@ func (a *verifAuth) Authenticate(username, password string) (auth.User, error) {
 	}
 	return auth.User{}, errors.New("bad credentials")
 }
-func (a *verifAuth) User(username string) (auth.User, error)              { return auth.User{}, errors.New("no") }
-func (a *verifAuth) SubscriptionUser(token string) (auth.User, error)     { return auth.User{}, errors.New("no") }
-func (a *verifAuth) GrantSubscriptionAccess(token, db, rp string) error   { return nil }
-func (a *verifAuth) ListSubscriptionTokens() ([]string, error)            { return nil, nil }
-func (a *verifAuth) RevokeSubscriptionAccess(token string) error          { return nil }
+func (a *verifAuth) User(username string) (auth.User, error) { return auth.User{}, errors.New("no") }
+func (a *verifAuth) SubscriptionUser(token string) (auth.User, error) {
+	return auth.User{}, errors.New("no")
+}
+func (a *verifAuth) GrantSubscriptionAccess(token, db, rp string) error { return nil }
+func (a *verifAuth) ListSubscriptionTokens() ([]string, error)          { return nil, nil }
+func (a *verifAuth) RevokeSubscriptionAccess(token string) error        { return nil }
 
 var verifHTTPGrantPaths = []string{"/", "/api", "/api/write", "/api/tasks"}
 
@@ -136,6 +138,86 @@ func VerifC20Route(v *vrt.T) {
 		v.Assert(w.status == http.StatusForbidden, "missing privilege is rejected with 403")
 	} else if forwarding {
 		v.Assert(servedAs == "bob", "the authenticated user is forwarded")
+	}
+	v.Reach("end")
+}
+
+// Raw request paths aimed at the subtree route /kapacitor/v1/config/ and the path the mux
+// canonicalises them to (path.Clean semantics, trailing slash kept): "." / ".." / empty
+// segments never widen access - whatever is served is authorised for the resource of the
+// canonical path, and a raw path whose canonical form leaves the subtree is not served by
+// the subtree's handler.
+var verifC20TrickPaths = []struct {
+	raw, canonical string
+}{
+	{BasePath + "/config/x", BasePath + "/config/x"},
+	{BasePath + "/config/", BasePath + "/config/"},
+	{BasePath + "/config/..", BasePath + "/"},
+	{BasePath + "/config/x/../..", BasePath + "/"},
+	{BasePath + "/config/./x", BasePath + "/config/x"},
+	{BasePath + "/config//x", BasePath + "/config/x"},
+	{"/" + BasePath + "/config/x", BasePath + "/config/x"},
+	{"/kapacitor//v1/config/x", BasePath + "/config/x"},
+	{BasePath + "/tasks/../config/x", BasePath + "/config/x"},
+	{BasePath + "/config/../tasks", BasePath + "/tasks"},
+}
+
+// VerifC20PathTricks: the subtree route /config/ behind the real mux and authorisation,
+// with the API-user grant table shape (symbolic masks on /api and /api/config): requests
+// with dot segments, empty segments and redundant slashes.
+func VerifC20PathTricks(v *vrt.T) {
+	methods := []string{"GET", "POST", "DELETE"}
+	method := methods[v.Choose("method", len(methods))]
+	tp := verifC20TrickPaths[v.Choose("path", len(verifC20TrickPaths))]
+
+	grants := map[string][]auth.Privilege{}
+	masks := map[string]auth.Privilege{}
+	for _, p := range []string{"/api", "/api/config"} {
+		if v.Bool("has" + p) {
+			m := auth.Privilege(v.IntRange("mask"+p, 0, 31))
+			grants[p] = []auth.Privilege{m}
+			masks[p] = m
+		}
+	}
+	user := auth.NewUser("bob", nil, false, grants)
+	h := &Handler{methodMux: map[string]*ServeMux{}, requireAuthentication: true, AuthService: &verifAuth{user: user, pass: "pw"}, statMap: new(expvar.Map)}
+	for _, m := range methods {
+		h.methodMux[m] = NewServeMux()
+	}
+	servedConfig, servedTasks := false, false
+	v.Assert(h.addRawRoute(Route{Method: method, Pattern: BasePath + "/config/", HandlerFunc: func(w http.ResponseWriter, r *http.Request) { servedConfig = true }, NoGzip: true, NoJSON: true}) == nil, "route added")
+	v.Assert(h.addRawRoute(Route{Method: method, Pattern: BasePath + "/tasks", HandlerFunc: func(w http.ResponseWriter, r *http.Request) { servedTasks = true }, NoGzip: true, NoJSON: true}) == nil, "route added")
+	w := &verifRW{h: http.Header{}}
+	h.ServeHTTP(w, &http.Request{Method: method, URL: &url.URL{Path: tp.raw, RawQuery: "u=bob&p=pw"}, Header: http.Header{}})
+
+	var priv auth.Privilege
+	switch method {
+	case "GET":
+		priv = auth.ReadPrivilege
+	case "POST":
+		priv = auth.WritePrivilege
+	default:
+		priv = auth.DeletePrivilege
+	}
+	granted := func(chain ...string) bool {
+		for _, p := range chain {
+			if m, ok := masks[p]; ok {
+				return m&priv != 0 || m&auth.AllPrivileges != 0
+			}
+		}
+		return false
+	}
+	underConfig := len(tp.canonical) >= len(BasePath+"/config/") && tp.canonical[:len(BasePath+"/config/")] == BasePath+"/config/"
+	v.Observe("served", servedConfig, servedTasks, w.status)
+	if servedConfig {
+		v.Assert(underConfig, "the config handler serves only paths whose canonical form lies in its subtree")
+		v.Assert(granted("/api/config", "/api"), "what the config handler serves is authorised for /api/config (nearest granted ancestor)")
+	}
+	if servedTasks {
+		v.Assert(tp.canonical == BasePath+"/tasks" && granted("/api"), "the tasks handler serves only its own canonical path, authorised for /api/tasks")
+	}
+	if tp.raw == tp.canonical && underConfig {
+		v.Assert(servedConfig == granted("/api/config", "/api"), "a canonical request is served exactly when authorised")
 	}
 	v.Reach("end")
 }
